@@ -116,8 +116,28 @@ def run_scaled(rng, tier, case):
     case.feature('scaled:' + kind, 'free_scale' if free else 'fixed_scale', 'norm:%g' % sc['norm_scale'], 'window' if sc.get('start') or sc.get('end') else 'no_window',
                  'freq:' + sp['grid']['freq'], 'unit:' + sp['grid']['unit'])
     case.key = env.spec_key(sp); case.sample = gen.abbreviate(spec); case.spec = spec
-    r = flow.run_portfolio(sp)
-    who = {'base': sc['base']['type'], 'kind': kind, 'norm': sc['norm_scale'], 'fix_costs': sc['fix_costs']}
+    built_h = None
+    if rng.random() < 0.35:
+        # rolling use: the same objects were set up before on a grid of ANOTHER duration (same start, other end, other grid object, other prices);
+        # nothing of that grid (active duration of the fix costs, restricted grid) may stay behind
+        try:
+            import pandas as pd
+            from ..spec import build, build_timegrid
+            with attach.paused(), env.quiet():
+                built_h = build(sp)
+                g0 = dict(sp['grid']); span = pd.Timestamp(g0['end']) - pd.Timestamp(g0['start'])
+                g0['end'] = str(pd.Timestamp(g0['start']) + span * int(gen.pick(rng, [2, 3, 4])))
+                if gen.local_ok(g0['end'], g0.get('tz')):
+                    tg0 = build_timegrid(g0)
+                    pr0 = {k: np.asarray(v, float) for k, v in gen.gen_prices(rng, tg0.T, sorted(sp['prices'])).items()}
+                    built_h.portfolio.setup_optim_problem(pr0, tg0)
+                    case.feature('set_up_before_on_a_longer_grid')
+                else:
+                    built_h = None
+        except Exception:
+            built_h = None        # (only history; if the longer grid cannot be set up the case runs on fresh objects)
+    r = flow.run_portfolio(sp, built=built_h)
+    who = {'base': sc['base']['type'], 'kind': kind, 'norm': sc['norm_scale'], 'fix_costs': sc['fix_costs'], 'used_before': built_h is not None}
     if not r.ok:
         if isinstance(r.error, AssertionError):
             case.reject(flow.describe_error(r)); return
